@@ -27,7 +27,7 @@ CONFIGS = {
 # Steering around the known findings (known_findings.json) so that exploration continues past them; each
 # known finding keeps a dedicated probe (run_probes) that confirms it is still present.
 STEER = {
-    "kotlin": dict(opt_slices=False, cb_struct_methods_only=True, cb_rate=4),
+    "kotlin": dict(opt_slices=False, cb_struct_methods_only=True, cb_rate=4),   # (+ no fallible indexers: see cases())
     "js": dict(err_custom_only=True),
     "demo_gen": dict(err_custom_only=True),
     "dart": dict(no_byte_slices=True),
@@ -96,7 +96,7 @@ def cases():
         p = S.profile_for([b], **over)
         prog = draw(S.programs(p))
         if draw(st.integers(0, 2)) == 0:
-            prog["_steer"] = {"no_static_props_on_opaque": b == "nanobind"}
+            prog["_steer"] = {"no_static_props_on_opaque": b == "nanobind", "no_fallible_indexer": b == "kotlin", "no_self_ctor": False}
             prog["special"] = S.add_special_methods(draw, prog)     # getters/setters, constructors, stringifiers, comparators, indexers, iterators
         if b in ("kotlin", "c") and draw(st.integers(0, 3)) == 0:
             S.add_trait(draw, prog)      # bridged traits: kotlin and c are the backends that accept them
